@@ -13,7 +13,7 @@ def strip_generics(name):
     i = 0
     n = len(name)
     while i < n:
-        if name.startswith('::<', i):
+        if name.startswith('::<', i) and not name.startswith('::<impl ', i):
             depth = 0
             j = i + 2
             while j < n:
